@@ -180,6 +180,8 @@ def generic_function_with_irrational_constant(rec, env):
         if not isinstance(r, list) or not r:
             return
         if r[0] in GENERIC_PATH:
+            if on_symbols(r[1]) - {"x"}:
+                found[0] = True      # a symbolic parameter: the constant term is an Add/Mul for the library
             try:
                 sr.series_of(r[1], 1, True, env)
             except sr.NotExact:
@@ -243,7 +245,7 @@ class C31(Check):
     assumptions = ["the textbook power-series recurrences in pbt/seriesref.py (cross-checked against numerical "
                    "differentiation) are the reference", "principal branches; all constant terms are real",
                    "library exceptions (NotImplementedError ...) decline a case"]
-    tiers = {"quick": {"examples": 900, "shrink_calls": 40}, "thorough": {"examples": 16000, "shrink_calls": 80}}
+    tiers = {"quick": {"examples": 640, "shrink_calls": 40}, "thorough": {"examples": 16000, "shrink_calls": 80}}
 
     def setup_worker(self, tier):
         # start the driver with a generous time-out: under load the first answer of a freshly started
